@@ -10,7 +10,7 @@ src = f"/tmp/mut/out/{pid}/{mn}"
 wt = f"/tmp/sv/{pid}-{mn}"
 env = dict(os.environ, GOPROXY="off")
 def sh(cmd, cwd):
-    p = subprocess.run(cmd, cwd=cwd, env=env, shell=True, stdout=subprocess.PIPE, stderr=subprocess.STDOUT, text=True, timeout=1200)
+    p = subprocess.run(cmd, cwd=cwd, env=env, shell=True, stdout=subprocess.PIPE, stderr=subprocess.STDOUT, text=True, errors="replace", timeout=1200)
     return p.returncode, p.stdout
 shutil.rmtree(wt, ignore_errors=True)
 subprocess.run(["git", "-C", "/repo", "worktree", "prune"])
